@@ -485,6 +485,7 @@ func genCase(r *hx.Rng, plain bool, maxOps int) *kase {
 	}
 	k := &kase{Plain: plain, Reg: g.regList()}
 	nops := r.Range(3, maxOps)
+	allowInject := r.Chance(15) // foreign writes switch the specification off for the history: keep them to a minority
 	if r.Chance(12) {
 		// long prefix of logs: ids cross the one-hex-digit boundary (15 -> 16), where an unpadded or
 		// differently ordered key encoding would change the scan order
@@ -546,7 +547,7 @@ func genCase(r *hx.Rng, plain bool, maxOps int) *kase {
 			} else if t := g.pickReg(); t != "" {
 				k.Ops = append(k.Ops, &op{Op: "reject", Typ: t, Item: "!enc" + g.item()})
 			}
-		case c < 88 && !plain:
+		case c < 88 && !plain && allowInject:
 			it := g.item()
 			if noReg {
 				continue
